@@ -243,6 +243,94 @@ def r_forms(ctx, rid):
         ctx.ob(rid, 'form:%s:%s' % (path.split(' as ')[0].lstrip('<'), label or '*'), bool(pieces) and not bad, 'pieces %s ⊆ literals of %s' % (sorted(pieces), rules), fn.where(), 'not literals of the rule: %s (rule literals %s)' % (bad, sorted(lits)) if bad else None)
 
 
+def r_name_tables(ctx, rid, floor=2, printer=True):
+    """Closed name tables (builtin aliases, integer type names): the printer's variant→text table and the parser's
+    text→variant table are inverse to each other (first match wins in the parser), and the texts are exactly the
+    alternatives of the grammar rule the parser is registered for."""
+    import re
+    from .. import guards
+    ctx.rule(rid, 'closed name tables: Display (variant → text) and the parser (text → variant, first match wins) are inverse; the texts are the alternatives of the parser\'s grammar rule')
+    fx = ctx.facts()
+    g = Grammar(fx.grammar)
+    n = 0
+    for path, fn in sorted(fx.F.items()):
+        m = re.match(r'^<(types::\w+) as std::fmt::Display>::fmt$', path)
+        if not m or fn.macro:
+            continue
+        ty = m.group(1)
+        rows = guards.decision_table(ctx, fn, 3, True)
+        disp = {}
+        for r in rows:
+            mv = re.match(r'^write_str\(f, "([^"]*)"\)$', r['value'] or '')
+            if len(r['conds']) == 1 and r['conds'][0].startswith('self=') and mv:
+                for v in r['conds'][0][5:].split('|'):
+                    disp[v] = mv.group(1)
+            else:
+                disp = None
+                break
+        if not disp:
+            continue
+        # the parser side: FromStr::from_str or PestParse::parse of the same type, a chain of string comparisons
+        parser = None
+        for cand in ('<%s as std::str::FromStr>::from_str' % ty, '<%s as parse::PestParse>::parse' % ty):
+            if cand in fx.F:
+                prow = guards.decision_table(ctx, fx.F[cand], 3, True)
+                if any(c.startswith('eq<str>("') for r in prow for c in r['conds']):
+                    parser = (cand, prow)
+                    break
+        if parser is None:
+            ctx.ob(rid, 'table:%s' % ty, False, 'a text→variant parser table exists for the printed names', fn.where(), 'no FromStr/PestParse string table found')
+            continue
+        n += 1
+        cand, prow = parser
+        parse = {}
+        for r in prow:
+            pos = [c for c in r['conds'] if c.startswith('eq<str>("') and c.endswith('=T')]
+            mv = re.match(r'^Ok\{(\w+)\{\}\}$', r['value'] or '')
+            if len(pos) == 1 and mv:
+                lit = re.match(r'^eq<str>\("([^"]*)", ', pos[0]).group(1)
+                neg = [re.match(r'^eq<str>\("([^"]*)", ', c).group(1) for c in r['conds'] if c.startswith('eq<str>("') and c.endswith('=F')]
+                if lit not in neg:
+                    parse.setdefault(lit, mv.group(1))
+        bad = ['%s prints "%s" which parses as %s' % (v, t, parse.get(t)) for v, t in sorted(disp.items()) if parse.get(t) != v]
+        bad += ['"%s" parses as %s which prints "%s"' % (t, v, disp.get(v)) for t, v in sorted(parse.items()) if disp.get(v) != t]
+        if printer:
+            ctx.ob(rid, 'inverse:%s' % ty, not bad, '%d variants: parse(print(v)) = v and print(parse(t)) = t' % len(disp), fn.where(), '; '.join(bad[:4]) if bad else None)
+        # grammar alternatives
+        rulefn = fx.F.get('<%s as parse::PestParse>::RULE' % ty)
+        rule = None
+        if rulefn is not None:
+            for kind, pth, ret in explore(ctx, rulefn, max_visits=1):
+                mm = re.search(r'(\w+)\{\}', sv(ret)) if ret is not None else None
+                if mm:
+                    rule = mm.group(1)
+        if rule is None or rule not in g.G:
+            ctx.ob(rid, 'grammar:%s' % ty, False, 'grammar rule of the parser is known', fn.where(), 'RULE constant of %s not resolved (%s)' % (ty, rule))
+            continue
+        lits = set()
+        for ls, guard in g.kw_parts(g.G[rule]['e'], set(g.ident_rules())):
+            lits |= set(ls)
+        ctx.ob(rid, 'grammar:%s' % ty, lits == set(parse) and (not printer or lits == set(disp.values())), 'alternatives of rule %s = parser texts = printed texts (%d)' % (rule, len(lits)), fn.where(),
+               'grammar-only %s; parser-only %s; printer-only %s' % (sorted(lits - set(parse)), sorted(set(parse) - lits), sorted(set(disp.values()) - lits)))
+    ctx.floor(rid, 'name tables', n, floor)
+
+
+def r_number_tokens(ctx, rid, floor=3):
+    """Numbers are printed through core's Display of usize / the unsigned carriers: canonical decimal numerals
+    D = 0 | [1-9][0-9]*.  Every digit token of the grammar (array size, list bound, decimal literal) has to accept all of D,
+    otherwise a printed size, bound or literal does not parse back."""
+    ctx.rule(rid, 'number tokens: each digit-class token rule of the grammar (array_size, list_bound, dec_literal) accepts every canonical decimal numeral 0 | [1-9][0-9]* (what core prints for the sizes, bounds and integers)')
+    fx = ctx.facts()
+    g = Grammar(fx.grammar)
+    toks = g.digit_tokens()
+    for name, shape, ok, why in toks:
+        ctx.ob(rid, 'digits:' + name, ok, 'L(%s) = %s ⊇ canonical decimals' % (name, shape), 'src/minimal.pest (%s)' % name, why)
+    ctx.floor(rid, 'digit token rules', len(toks), floor)
+    for need in ('array_size', 'list_bound', 'dec_literal'):
+        ctx.ob(rid, 'present:' + need, need in {t[0] for t in toks}, 'rule %s is a digit-class token decided by this rule' % need, 'src/minimal.pest (%s)' % need,
+               'rule %s is no longer of a decided shape (C+ / C1 ~ C2*)' % need)
+
+
 def check(ctx):
     from . import c04
     c04.group_rule(ctx, 'R16.5', r"^(<parse::ExprTree<'_> as std::fmt::Display>::fmt|<pattern::Pattern as std::fmt::Display>::fmt|types::TypeInner::<A>::display)$", 'parse-tree, pattern and type printers: complete pre-order state machines', 3)
@@ -250,3 +338,5 @@ def check(ctx):
     r_tokens(ctx, 'R16.1')
     r_variants(ctx, 'R16.2')
     r_separators(ctx, 'R16.3')
+    r_name_tables(ctx, 'R16.6')
+    r_number_tokens(ctx, 'R16.7')
